@@ -29,6 +29,17 @@ BUDGET_S = {"quick": 200, "thorough": 1800}
 def gen(rng, tier):
     n_cases = 60 if tier == "quick" else 700
     for k in range(n_cases):
+        if k % 16 == 2:
+            # systematic: time stamps (2^30 + small offsets) and a cheap route D-b-a-D whose every arc passes the arc timing filter but
+            # which reaches a one unit after a's window closed (b is reached late because of the way from the depot)
+            T0 = Fraction(2 ** 30)
+            late = Fraction(rng.choice([1, 2, 3]))
+            nodes = [dict(name="D", demand="0", lo=fs(T0), hi="inf"), dict(name="a", demand="0", lo=fs(T0), hi=fs(T0 + 3)),
+                     dict(name="b", demand="0", lo=fs(T0 + 1), hi=fs(T0 + 4))]
+            arcs = [["D", "b", "3", "1"], ["b", "a", fs(late), "1"], ["a", "D", "1", "1"], ["D", "a", "1", fs(Fraction(rng.randint(4, 6)))],
+                    ["b", "D", "1", fs(Fraction(rng.randint(4, 6)))]]
+            yield dict(spec=dict(nodes=nodes, arcs=arcs, cap="100", init="50"))
+            continue
         if k % 8 == 5:
             # systematic: objects assembled through their own API, depot named last, with an arc a -> b (a = the first node added) that the
             # base timing rule admits and the strict rule refuses, on a cheap route that is too late in the reference (arrival at a is
@@ -77,9 +88,12 @@ def gen(rng, tier):
             spec["nodes"][0]["lo"] = fs(rng.choice(his) - rng.choice([0, 0, 1])) if his and rng.random() < 0.8 else rng.choice(["1", "2"])
             if Fraction(spec["nodes"][0]["lo"]) < 0:
                 spec["nodes"][0]["lo"] = "0"
-        if k % 8 == 2:
+        if k % 16 == 10:
             # the whole time axis far from zero (2^30: time stamps rather than offsets; still exact in doubles): a window test with a
             # RELATIVE tolerance would accept late arrivals there
+            for nd in spec["nodes"][1:]:
+                # (binding windows: each customer's window is narrowed so that lateness decides which routes are valid)
+                nd["hi"] = fs(Fraction(nd["lo"]) + Fraction(rng.randint(0, 4), 2))
             for nd in spec["nodes"]:
                 nd["lo"] = fs(Fraction(nd["lo"]) + 2 ** 30)
                 if nd["hi"] != "inf":
